@@ -19,6 +19,8 @@ def effective_n(op):
 def expected_values(op):
     m = effective_n(op)
     if op.get('input') == 'nd':
+        if op.get('nd_dims') == 1:
+            return {'nd': [i * 3 + 1 for i in range(m)]}
         return {'nd': [[i * 3 + 1, 2 * i * 3 + 1] for i in range(m)]}
     from harness.detsim.scenario import ret_of
     return [ret_of(op, i) for i in range(m)]
